@@ -204,6 +204,8 @@ def _tests_follow(ctx, f, cfg, c, guards, ucr, pruned, sites):
             return False, f"`{bad_nodes[v].text()[:50]}` (line {bad_nodes[v].line}) can run before the test"
         node = cfg.nodes[v]
         if node.kind == "stmt" and isinstance(node.ast, ast.Raise):
+            if exc_name(node.ast.exc) in ("MaxEvalError",):
+                return False, f"the budget test at line {node.line} can end the run before the stopping tests of this evaluation are made"
             continue
         if node.kind == "for":
             entering = u not in loop_body.get(v, ())
@@ -235,6 +237,9 @@ def _eval_first_iter(test, env):
     from ..astutil import const_value, cmp_op_str
     if isinstance(test, ast.Compare) and len(test.ops) == 1 and isinstance(test.left, ast.Name) and test.left.id in env:
         cv = const_value(test.comparators[0])
+        # validated positive integer budgets / counts: index 0 is below them
+        if cv is None and mentions(test.comparators[0], "MAX_EVAL", "maxfev", "NPT", "nb_points") and isinstance(test.comparators[0], ast.Subscript) and env[test.left.id] == 0:
+            return {"==": False, "!=": True, "<": True, "<=": True, ">": False, ">=": False}.get(cmp_op_str(test.ops[0]))
         if isinstance(cv, (int, float)):
             a = env[test.left.id]
             return {"==": a == cv, "!=": a != cv, "<": a < cv, "<=": a <= cv, ">": a > cv, ">=": a >= cv}.get(cmp_op_str(test.ops[0]))
